@@ -1187,8 +1187,9 @@ func (x *Exec) curBound() *loopBound {
 // collected and merged at the (single) exit target. Returns the state at the exit target.
 func (x *Exec) runLoop(st *State, fn *ssa.Function, l *Loop, from, stop *ssa.BasicBlock, rets *[]retRec, depth int) (*State, *ssa.BasicBlock) {
 	lb := &loopBound{fn: fn, head: l.Head, blocks: l.Blocks, frames: len(st.Frames)}
+	savedBounds := x.bounds
 	x.bounds = append(x.bounds, lb)
-	defer func() { x.bounds = x.bounds[:len(x.bounds)-1] }()
+	defer func() { x.bounds = savedBounds }()
 	cur, curFrom := st, from
 	var exits []loopArrival
 	for iter := 0; ; iter++ {
